@@ -54,6 +54,7 @@ type CaseOut struct {
 	Log        string   `json:"log"`
 	ChangeLog  string   `json:"change_log"`
 	CmpLog     string   `json:"cmp_log"`
+	ScpLog     []string `json:"scp_log,omitempty"` // Linux with real scp: file:result in order
 	ScpRouting bool     `json:"scp_routing"`
 	ScpTables  bool     `json:"scp_tables"`
 	WallMs     int64    `json:"wall_ms"`
@@ -122,7 +123,19 @@ func runCase(c CaseIn) CaseOut {
 			FaultPos: c.FaultPos, FaultKind: c.FaultKind, ErrText: errTextOf(c.Scen.Backend)}
 		data, _ := json.Marshal(cfg)
 		os.WriteFile(filepath.Join(simDir, "sim.json"), data, 0644)
-		os.Setenv("SIMULATE_ROUTER", selfExe()+" -devsim "+simDir)
+		if c.Scen.Shape["realscp"] == 1 {
+			// no test short-cut: the program runs `ssh` and `scp` as it finds them in PATH
+			bin := filepath.Join(simDir, "bin")
+			os.Mkdir(bin, 0755)
+			os.WriteFile(filepath.Join(bin, "ssh"), []byte("#!/bin/sh\nexec '"+selfExe()+"' -devsim '"+simDir+"'\n"), 0755)
+			os.WriteFile(filepath.Join(bin, "scp"), []byte("#!/bin/sh\nexec '"+selfExe()+"' -fakescp '"+simDir+"' \"$@\"\n"), 0755)
+			oldPath := os.Getenv("PATH")
+			os.Setenv("PATH", bin+":"+oldPath)
+			defer os.Setenv("PATH", oldPath)
+			os.Unsetenv("SIMULATE_ROUTER")
+		} else {
+			os.Setenv("SIMULATE_ROUTER", selfExe()+" -devsim "+simDir)
+		}
 	}
 
 	var mainFunc func() int
@@ -165,6 +178,17 @@ func runCase(c CaseIn) CaseOut {
 			time.Sleep(5 * time.Millisecond)
 		}
 		out.Lines, out.FaultAt = readTranscript(tp)
+		if data, err := os.ReadFile(filepath.Join(simDir, "scplog")); err == nil {
+			for _, l := range strings.Split(strings.TrimSpace(string(data)), "\n") {
+				f := strings.Fields(l)
+				if len(f) == 4 {
+					out.ScpLog = append(out.ScpLog, f[2]+":"+f[3])
+					if f[3] == "fail" {
+						out.FaultAt, _ = strconv.Atoi(f[1])
+					}
+				}
+			}
+		}
 	}
 	rd := func(p string) string { b, _ := os.ReadFile(p); return string(b) }
 	out.Status = rd(filepath.Join(work, "status", devName))
